@@ -62,7 +62,19 @@ def gen_tables():
 
 
 # ---------------------------------------------------------------- Coq
+def coq_project():
+    """_CoqProject = fixed option lines + every theories/*/*.v (sorted); rewritten only when the list changes"""
+    import glob
+    cp = os.path.join(COQ, "_CoqProject")
+    head = [l for l in open(cp).read().split("\n") if l.startswith("-")]
+    files = sorted(os.path.relpath(f, COQ) for f in glob.glob(os.path.join(COQ, "theories", "*", "*.v")))
+    text = "\n".join(head + files) + "\n"
+    if open(cp).read() != text:
+        open(cp, "w").write(text)
+
+
 def coq_makefile():
+    coq_project()
     mk = os.path.join(COQ, "Makefile.coq")
     cp = os.path.join(COQ, "_CoqProject")
     if not os.path.exists(mk) or os.path.getmtime(mk) < os.path.getmtime(cp):
